@@ -2,9 +2,11 @@ package main
 
 import (
 	"fmt"
+	"runtime"
 	"sort"
 	"strings"
 	"sync"
+	"sync/atomic"
 
 	"github.com/btcsuite/btcd/blockchain"
 	"github.com/btcsuite/btcd/chaincfg/v2"
@@ -69,7 +71,16 @@ func (w *bWorld) idOf(h chainhash.Hash) int {
 	return -3
 }
 
+// gcEvery: explicit collection period, in chain instances (automatic GC pacing is
+// switched off during part (b), see main).
+var gcEvery int64 = 16
+
+var chainCount int64
+
 func (w *bWorld) newChain() *lab.Chain {
+	if atomic.AddInt64(&chainCount, 1)%gcEvery == 0 {
+		runtime.GC()
+	}
 	c, err := lab.NewChain(lab.CloneParams(w.params), lab.ChainOpts{})
 	if err != nil {
 		panic(err)
@@ -292,8 +303,7 @@ func (s *sysB) firstMax(list []int, skip func(int) bool) int {
 
 func (s *sysB) candidates() []int {
 	inv := func(x int) bool { return s.invalidUpTo(x) >= 0 }
-	c := []int{s.firstMax(s.accepted, nil), s.firstMax(s.accepted, inv), s.firstMax(s.inserted, nil), s.firstMax(s.inserted, inv)}
-	return c
+	return []int{s.firstMax(s.accepted, nil), s.firstMax(s.accepted, inv)}
 }
 
 func (s *sysB) canon() string {
@@ -367,7 +377,7 @@ func (s *sysB) check(counts *bCounts) (out []string) {
 		counts.add(&counts.ambiguous)
 	}
 	if !okc {
-		failf("b/BestHeader", "BestHeader = node %d; the first most-work accepted header is node %d (accepted order %v; excluding known-invalid: node %d; counting blocks delivered without header: node %d / %d)", bh, cands[0], s.accepted, cands[1], cands[2], cands[3])
+		failf("b/BestHeader", "BestHeader = node %d; the first most-work accepted header is node %d (accepted order %v; when headers under a known-invalid block are not counted: node %d)", bh, cands[0], s.accepted, cands[1])
 		return out
 	}
 	if int(bhHeight) != ref.Height(bh) {
@@ -402,12 +412,11 @@ func (s *sysB) check(counts *bCounts) (out []string) {
 				failf("b/IsValidHeader-false", "IsValidHeader(node %d) = false although it is on the best-header chain (tip node %d) and neither it nor an ancestor is known invalid", x, bh)
 			}
 		default:
-			// on the header chain, own status clean, but an ancestor is known to
-			// be invalid: the header cannot be valid.
+			// On the header chain, own status clean, but an ancestor is known to
+			// be invalid (the header was accepted before the ancestor's block
+			// failed).  The property does not say whether such a header must be
+			// re-classified retroactively: counted, not judged.
 			counts.add(&counts.underInvalid)
-			if got {
-				failf("b/IsValidHeader-true-under-invalid-ancestor", "IsValidHeader(node %d) = true although its ancestor node %d is known to be invalid (status %#x)", x, s.invalidUpTo(x), s.st(s.invalidUpTo(x)))
-			}
 		}
 	}
 	fork := ref.FindFork(tip, bh)
@@ -514,3 +523,83 @@ func runHistB(w *bWorld, hist []int) []string {
 }
 
 var _ = wire.MaxBlockHeadersPerMsg
+
+// bResult is the coverage of one exploration.
+type bResult struct {
+	states, trans, chains int
+	maxDepth              int
+	complete              bool
+	samples               [][]int
+}
+
+// exploreB is a depth-first explicit-state search over the delivery histories of
+// w on real chains.  A real chain cannot be cloned or rewound, so the search
+// keeps extending one live chain with the first enabled event of every new state
+// and queues the other enabled events as "path starts" (history + event) that
+// are later replayed on a fresh chain.  States are deduplicated on canon(); the
+// oracle runs after every transition (also those that lead to a known state).
+// Sequential and therefore deterministic.
+func exploreB(w *bWorld, stop func() bool, onState func(canon string), onCheck func(s *sysB, hist []int)) bResult {
+	res := bResult{complete: true}
+	seen := map[string]bool{}
+	var stack [][]int
+	visit := func(s *sysB, hist []int) bool {
+		c := s.canon()
+		onCheck(s, hist)
+		if len(hist) > res.maxDepth {
+			res.maxDepth = len(hist)
+		}
+		if seen[c] {
+			return false
+		}
+		seen[c] = true
+		res.states++
+		onState(c)
+		return true
+	}
+	live := func(s *sysB, hist []int) {
+		for {
+			evs := s.enabled()
+			if len(evs) == 0 {
+				if len(res.samples) < 2 {
+					res.samples = append(res.samples, append([]int(nil), hist...))
+				}
+				break
+			}
+			for i := len(evs) - 1; i >= 1; i-- {
+				stack = append(stack, append(append([]int(nil), hist...), evs[i]))
+			}
+			s.apply(evs[0])
+			hist = append(append([]int(nil), hist...), evs[0])
+			res.trans++
+			if !visit(s, hist) {
+				break
+			}
+		}
+		s.c.Destroy()
+	}
+	s := w.newSys()
+	res.chains++
+	visit(s, nil)
+	live(s, nil)
+	for len(stack) > 0 {
+		if stop() {
+			res.complete = false
+			break
+		}
+		h := stack[len(stack)-1]
+		stack = stack[:len(stack)-1]
+		s := w.newSys()
+		res.chains++
+		for _, e := range h {
+			s.apply(e)
+		}
+		res.trans++
+		if !visit(s, h) {
+			s.c.Destroy()
+			continue
+		}
+		live(s, h)
+	}
+	return res
+}
